@@ -8,6 +8,7 @@ import Std.Data.HashMap
 import CSD.Model.ChunkDec
 import CSD.Model.StatCoder
 import CSD.Model.DACImage
+import CSD.Model.Hash
 import CSD.Driver.Check
 
 namespace CSD.Driver
@@ -203,6 +204,54 @@ def runDacImg (c : Case) (emit : Nat → String → IO Unit) : IO Unit := do
     k := k + 1
     match op with
     | ["dichk", img, tam, ll, nl, bb, li, lv, rl, bn, bf, bd, br] => emit k (checkDacImg img tam ll nl bb li lv rl bn bf bd br)
+    | _ => emit k "V unparsable-export"
+
+/-- HASHHF / HASHUFFDAC: the keys of the hash table are the Huffman-coded strings. With the exported
+codewords the model of `StatCoder::encodeString` re-encodes every string (terminator included), the
+double-hashing model builds the table from those keys in input order, and every ID the real `locate`
+returned must be the rank of the key's cell; the hypotheses of the hash theorems (`GoodDict`: distinct
+keys, the table holds them, accepted size) are checked. -/
+def checkHhf (strsHex queriesHex hs ts occ cws loc abs : String) : String :=
+  let S : List Str := (splitComma strsHex).map unhex
+  let Q : List Str := (splitComma queriesHex).map unhex
+  let cw : Array (Nat × Nat) := ((splitComma cws).map fun e =>
+    match e.splitOn ":" with
+    | [b, c] => (b.toNat?.getD 0, hexNat c)
+    | _ => (0, 0)).toArray
+  if cw.size != 256 then "V bad-codeword-count" else
+  let cwOf : Nat → Nat × Nat := fun s => let (b, c) := cw.getD s (0, 0); (c, b)
+  let keyOf (s : Str) : Option Str :=
+    if (s.any fun b => (cw.getD b.toNat (0, 0)).1 == 0) || (cw.getD 0 (0, 0)).1 == 0 then none else
+    (StatCoder.encodeString cwOf (s.map (·.toNat) ++ [0]) 0 0 []).map fun l => l.map (·.toUInt8)
+  match S.mapM keyOf with
+  | none => "V a-member-has-no-codeword"
+  | some keys =>
+    if !(keys.eraseDups.length == keys.length) then "V two-strings-have-the-same-coded-key" else
+    let d := Hash.build (hs.toNat?.getD 0) keys
+    if d.tsize != ts.toNat?.getD 0 then s!"V table-size model={d.tsize} code={ts}" else
+    if !(d.tsize % 2 != 0 && Hash.oddTrial d.tsize (Nat.sqrt d.tsize + 2) 3) then "V table-size-not-accepted-by-nearest_prime" else
+    if !(S.length ≤ hs.toNat?.getD 0) then "V requested-size-below-the-number-of-strings" else
+    let modOcc := String.ofList (d.table.map fun c => if c.isSome then '1' else '0')
+    if modOcc != occ then "V occupancy-bitmap-differs" else
+    let implLoc := (splitComma loc).map fun x => x.toNat?.getD 0
+    let implAbs := (splitComma abs).map fun x => x.toNat?.getD 0
+    let modLoc := keys.map (Hash.locate d)
+    if modLoc != implLoc then "V model-IDs-differ-from-code-on-a-member" else
+    if modLoc.mergeSort != (List.range S.length).map (· + 1) then "V IDs-are-not-a-bijection-onto-1..n" else
+    let modAbs := Q.map fun q => match keyOf q with
+      | some k => Hash.locate d k
+      | none => 0
+    if modAbs != implAbs then "V model-IDs-differ-from-code-on-a-query" else
+    if !(modAbs.zip Q).all (fun (r, q) => (r == 0) == !(S.contains q)) then "V absent-query-not-answered-0" else
+    "V ok"
+
+def runHhf (c : Case) (emit : Nat → String → IO Unit) : IO Unit := do
+  let mut k := 0
+  for op in c.ops do
+    k := k + 1
+    match op with
+    | ["hhchk", strs, qs, hs, ts, occ, cw, loc, abs] => emit k (checkHhf strs qs hs ts occ cw loc abs)
+    | ["rdskip"] => emit k "V ok"
     | _ => emit k "V unparsable-export"
 
 /-- The size sweep (`sweep lo hi step`): the harness builds, saves, reloads and probes one dictionary per
